@@ -258,10 +258,11 @@ def parse_record( fd, n=-1, encoding=None ):
     l				= None
     for l in fd:
         n		       += 1
-        l			= l.decode( encoding or 'ascii' ).lstrip()
-        if not l or l.startswith( '#' ):
+        l			= l.lstrip()
+        if not l or l.startswith( b'#' ):
             l			= None
-            continue # blank or comment
+            continue # blank or comment (which, alone, may hold text not in the expected encoding)
+        l			= l.decode( encoding or 'ascii' )
         break
     if not l:
         raise StopIteration( "Empty file" )
